@@ -733,7 +733,9 @@ func zc43Explore(t *testing.T, name string, maxDepth int, tpModes []int, globalP
 			if anyFail {
 				class = "failed"
 			}
-			where := fmt.Sprintf("C43:%s:%s:%s:%s", transport, u.Role, u.Kind.Name, zc43TPNames[call.TP])
+			// signature = transport : role of the unit : outcome of the call : what went wrong
+			// (call kind and trace-context variant are in the detail, not in the signature)
+			where := fmt.Sprintf("C43:%s:%s:%s", transport, u.Role, class)
 			desc := fmt.Sprintf("unit %d (%s %s of call %d %s, %s, tracestate=%v, tracing=%v, metrics=%v, global-propagator=%v; %d dispatch(es), %s)",
 				ui, transport, u.Role, u.Call, u.Kind.Name, zc43TPNames[call.TP], call.TState, tracing, metrics, globalProp, len(disp), class)
 			var so []string
